@@ -152,6 +152,9 @@ class Machine:
         if op == "ifexp":
             c = self.cond(e[1], env)
             return self.ev(e[2] if c else e[3], env)
+        if op == "tobool":
+            a = self.ev(e[1], env)
+            return None if a is None else int(bool(a))
         if op == "ridx":
             a, i = self.ev(e[1], env), self.ev(e[2], env)
             if i is None:
